@@ -1,15 +1,25 @@
 ----------------------------- MODULE MC_Registry -----------------------------
-(* TLC evaluates the DatasetRegistry invariants on the registry extracted from the working tree
-   (JSON file named by the environment variable REGISTRY_FILE, written by harness/c18.py).
+(* TLC evaluates the DatasetRegistry invariants on the registry extracted from the working tree.
+   RegistryData.tla is GENERATED at check time by harness/c18.py into TLC's working directory
+   (RegistryData == << [name |-> ..., kind |-> ..., call |-> [...], variants |-> << ... >>], ... >>).
    There is one state; EmitReport (always true, listed first) prints the witness set of every
-   invariant, so that all violated invariants are known even though TLC stops at the first. *)
-EXTENDS DatasetRegistry, TLC, Json, IOUtils
+   invariant, so that all violated invariants are known even though TLC stops at the first.
+   (The invariants mention the variable only because TLC refuses constant-level INVARIANTs.) *)
+EXTENDS DatasetRegistry, RegistryData, TLC, Json
 VARIABLE dummy
-
-RegistryFromFile == JsonDeserialize(IOEnv.REGISTRY_FILE)
 
 Init == dummy = 0
 Next == UNCHANGED dummy
 
-EmitReport == PrintT(ToJson([k |-> "report", counts |-> Counts, witnesses |-> Report]))
+S(P) == dummy = 0 => P
+EmitReport            == S(PrintT(ToJson([k |-> "report", counts |-> Counts, witnesses |-> Report])))
+I_NamesDistinct       == S(NamesDistinct)
+I_AllResolve          == S(AllResolve)
+I_KindsAgree          == S(KindsAgree)
+I_UrlInjective        == S(UrlInjective)
+I_ChecksumInjective   == S(ChecksumInjective)
+I_RemoteFileInjective == S(RemoteFileInjective)
+I_SlotInjective       == S(SlotInjective)
+I_RecordsComplete     == S(RecordsComplete)
+I_VariantsAgree       == S(VariantsAgree)
 =============================================================================
